@@ -81,7 +81,6 @@ func (E *Engine) arrayGlobalFacts(x *Exec, g *ssa.Global) []*Term {
 	return out
 }
 
-
 // VerifyLemmas proves every lemma that was used (all of them in thorough tier)
 // as its own obligation; a lemma is only available as a hypothesis because it
 // is also an obligation of the same run.
